@@ -56,7 +56,12 @@ func init() {
 	}
 	decls := map[flags.Options]*decl.Decl{}
 	body := func(c *explore.Ctx) {
-		pol := policies[c.Choose(len(policies))]
+		pi := c.Choose(len(policies) + 1)
+		if pi == len(policies) {
+			c07Excluded(c, []flags.Options{flags.None, flags.IgnoreUnknown, flags.PassDoubleDash}[c.Choose(3)])
+			return
+		}
+		pol := policies[pi]
 		api := c.Bool()
 		warm := c.Choose(3) // 0: fresh parser; 1, 2: the same parser has parsed [add --force deep] / [rm] before
 		maxDepth := 4
@@ -193,7 +198,7 @@ func init() {
 		Body:       body,
 		Rule: "declaration with case-sensitive, namespaced and non-ASCII names and options that exist only in sibling / deeper commands; 8 policies (fail, fail+PassDoubleDash, IgnoreUnknown, handler returning the arguments unchanged / dropping the next / consuming all of them (nil slice) / " +
 			"inserting a token / returning an error) x {tags, API} x {fresh parser, parser that already parsed a vector selecting add/deep, selecting rm} x every sequence of <= 4 units (3 for the API build, the reused-parser and the argument-rewriting handler variants; thorough: one more for the fail and IgnoreUnknown policies, 4 for the rest) over 12 valid tokens and 23 near misses (case flips, names containing % or a NUL character, an unknown -<digits> token while an int positional is pending, prefixes, one character dropped/added/changed, " +
-			"namespace missing/doubled/case-changed, unknown character at either end of a cluster, two unknown characters in one cluster, inline arguments, a neighbouring non-ASCII letter); oracle = CLM scope tables and handler call log",
+			"namespace missing/doubled/case-changed, unknown character at either end of a cluster, two unknown characters in one cluster, inline arguments, a neighbouring non-ASCII letter); beside that: options of a struct field excluded with no-flag and an option name prefixed with the parser's own Namespace are unknown; oracle = CLM scope tables and handler call log",
 		Assumptions:  []string{"the name passed to the handler for a multi-character cluster is not asserted beyond: it mentions every character of the cluster, from the first unknown one on, that names no option in scope", "values of flags that precede an unknown character inside one cluster are not asserted"},
 		RequiredHits: []string{"unknown-rejected", "handler-called", "continued-after-unknown", "after-earlier-parse"},
 		Bound:        [2]string{"unit sequences <= 4", "unit sequences <= 5"},
@@ -209,4 +214,50 @@ func c07Class(tok string) string {
 		return "cluster"
 	}
 	return "short"
+}
+
+// c07Excluded: names that are not defined although something in the declaration spells them:
+// the options of a struct-typed field excluded with no-flag, and a top-level option's name prefixed with parser.Namespace.
+func c07Excluded(c *explore.Ctx, opts flags.Options) {
+	type inner struct {
+		Xx bool `long:"xx" short:"x"`
+	}
+	var o struct {
+		Verbose bool  `short:"v" long:"verbose"`
+		Skip    inner `no-flag:"yes"`
+		SkipP   *inner `no-flag:"yes"`
+	}
+	which := c.Choose(4)
+	tok := []string{"--xx", "-x", "--ext.verbose", "--verbose"}[which]
+	p := flags.NewParser(&o, opts)
+	p.Namespace = "ext"
+	var rest []string
+	var err error
+	func() {
+		defer func() {
+			if r := recover(); r != nil {
+				c.Fail("panic|"+explore.PanicSite(), fmt.Sprint(r))
+			}
+		}()
+		rest, err = p.ParseArgs([]string{tok, "w"})
+	}()
+	if c.Failed() {
+		return
+	}
+	c.Hit("excluded-names")
+	fe, _ := err.(*flags.Error)
+	switch {
+	case which == 3:
+		if err != nil || !o.Verbose {
+			c.Fail("known-option-reported-unknown|parser-namespace", fmt.Sprint(err))
+		}
+	case opts&flags.IgnoreUnknown != 0:
+		if err != nil || len(rest) != 2 || rest[0] != tok || o.Skip.Xx || o.Verbose {
+			c.Fail("unknown-option-accepted|excluded|"+tok, map[string]interface{}{"error": fmt.Sprint(err), "rest": rest})
+		}
+	default:
+		if fe == nil || fe.Type != flags.ErrUnknownFlag {
+			c.Fail("unknown-option-accepted|excluded|"+tok, map[string]interface{}{"error": fmt.Sprint(err), "rest": rest})
+		}
+	}
 }
